@@ -47,7 +47,7 @@ def cases(draw):
             if draw(st.integers(0, 3)) > 0:
                 prog.append(["hook", "gcode", "afterPrintDone"])
     tail = draw(st.lists(st.one_of(st.sampled_from(HOOKS).map(list),
-                                   st.sampled_from(["PRINT_DONE", "PRINT_CANCELLED", "PRINT_FAILED", "PRINT_PAUSED"]).map(lambda n: ["event", n])),
+                                   st.sampled_from(["PRINT_DONE", "PRINT_CANCELLED", "PRINT_CANCELLING", "PRINT_FAILED", "ERROR", "PRINT_PAUSED", "PRINT_RESUMED"]).map(lambda n: ["event", n])),
                          min_size=1, max_size=5))
     base["prog"] = prog + tail
     return base
